@@ -569,6 +569,17 @@ class Routine:
                 return self.convert(val, val[1], to_ty)
             return self.convert(val, fr_ty, to_ty)
         e = strip(payload) if payload is not None else None
+        # a private straight-line helper that only builds the error value (`shape_mismatch(a.shape(), b.shape())`): the value it builds
+        for _ in range(2):
+            if isinstance(e, tuple) and e[0] == "call" and isinstance(e[2], str) and e[2] in prog.bodies:
+                hb_ = prog.bodies[e[2]]
+                if hb_.key not in prog.exported and not hb_.is_closure and not any(hb_.term(x_)["k"] == "switch" for x_ in hb_.live_blocks()):
+                    try:
+                        e = strip(subst(strip(hb_.return_expr()), {i_ + 1: a_ for i_, a_ in enumerate(e[3])}))
+                        continue
+                    except Exception:
+                        pass
+            break
         # into()/from()  (resolved with this body's own call sites, i.e. before any substitution of caller arguments)
         for _ in range(5):
             if isinstance(e, tuple) and e[0] == "call" and e[1] in ("into", "from") and len(e[3]) == 1:
@@ -1192,6 +1203,14 @@ def rule_r6(ctx, prog, rule="R6", only=None):
             ob(i, kind, False, "unsupported-spec", "internal: unsupported spec %s" % (sp,))
         # anything left over is an undocumented error exit
         for x in seq[pos:]:
+            if x.kind == "delegate" and x.cls and x.cls[0] == "DELEGATE" and "EMPTY" in matched_positions.values():
+                # `other_routine(self, ..)?` after this routine's own emptiness decision, where the other routine's only documented error is
+                # the emptiness of the same operand: the propagated error cannot occur any more (and would be the same EmptyInput)
+                tsp = [v for (o_, n_), v in TABLE.items() if n_ == x.cls[1]]
+                if tsp and all(r_ == ("EMPTY", 1) for r_ in tsp[0]) and x.cls[2] and is_p(x.cls[2][0], 1):
+                    ctx.ob(rule, "%s/propagates:%s" % (fk, x.cls[1]), True, x.body.where(x.bb, "term"),
+                           "propagates %s(self, ..)'s only documented error (empty input), already decided here" % x.cls[1])
+                    continue
             key = "%s/extra/found:%s" % (fk, cls_text(x))
             ctx.ob(rule, key, False, x.body.where(x.bb, "term"),
                    "error exit %s → %s is not in the property's decision table for this routine" % (cls_text(x), fmt(x.err) if x.err is not None else "?"),
